@@ -66,7 +66,9 @@ Line protocol for C16. One case = one op line.
 In `round` ops `cw` creators are cancelled (mode=threads) or SIGKILLed (mode=procs) while they are blocked in
 flock; `sig=<S>` (mode=procs) sends S signals without SA_RESTART to every blocked flock thread (EINTR and
 retry: no transition of the model); `sigx=<K>` (mode=procs) signals the last K late creators until their retry
-loop gives up after five interruptions (model: `fail` at `.waiting`, outcome `err:locking`).
+loop gives up after five interruptions (model: `fail` at `.waiting`, outcome `err:locking`); `ce=<K>` (mode=threads)
+starts K more creators after the round, one after the other: each suspends inside `handle_existing_fn` and has its
+future dropped there (model: `cancel` at `.exUnlinked`), or creates the file if nobody did.
 
 The judge evaluates the statement of C16 on the implementation's lines only (no model involved).
 -/
@@ -308,7 +310,21 @@ def simRound (ws : List String) : List String := Id.run do
       | none => pure ()
     sim := { sim with gateOpen := true }
     sim := drain cfg sim (early ++ latePids ++ cwPids)
-  let all := early ++ latePids ++ cwPids
+  -- `ce` more creators, one after the other: dropped inside the existing-file handler (await point :126) if they
+  -- find the destination; otherwise they create it
+  let cePids := (List.range (kvNat ws "ce" 0)).map (· + n + cw)
+  for p in cePids do
+    for _ in [0:60] do
+      match sim.s.pc p with
+      | .exUnlinked =>
+        match next sim.pl sim.s (.cancel p) with
+        | some s' => sim := { sim with s := s', cancelled := p :: sim.cancelled }
+        | none => pure ()
+      | _ =>
+        match actOnce cfg sim p with
+        | some sim' => sim := sim'
+        | none => pure ()
+  let all := early ++ latePids ++ cwPids ++ cePids
   let count (o : String) : Nat := (all.filter fun p => (outcomeOf sim p).startsWith o).length
   out := out ++ [s!"outcomes created={count "created"} existing={count "existing"} err={count "err"} killed={count "killed"} cancelled={count "cancelled"} err_rename={count "err:rename"}"]
   if count "stuck" + count "dead" > 0 then out := out ++ ["stuck creators"]
@@ -500,7 +516,7 @@ def findLine (impl : List String) (pfx : String) : Option (List String) :=
   (impl.find? (·.startsWith pfx)).map words
 
 def judgeRound (ws impl : List String) : Bool × String :=
-  let n := kvNat ws "n" 1 + kvNat ws "cw" 0
+  let n := kvNat ws "n" 1 + kvNat ws "cw" 0 + kvNat ws "ce" 0
   match findLine impl "outcomes", findLine impl "writes_ok", findLine impl "observations",
         findLine impl "final", findLine impl "retry" with
   | some o, some w, some b, some f, some r =>
